@@ -3,6 +3,7 @@
 package rest
 
 import (
+	"github.com/couchbase/go-blip"
 	"bytes"
 	"encoding/json"
 	"fmt"
@@ -148,6 +149,25 @@ func c19Strip(v any) any {
 type c19Env struct {
 	rt *RestTester
 	n  int
+	bt *BlipTester
+}
+
+// blipPush sends one rev message (a replication push of a first revision) and returns an HTTP-like status
+func (e *c19Env) blipPush(id, body string) (int, string) {
+	if e.bt == nil {
+		e.rt.CreateUser("c19blip", []string{"*"})
+		e.bt = NewBlipTesterFromSpecWithRT(e.rt, &BlipTesterSpec{connectingUsername: "c19blip"})
+	}
+	req := e.bt.newRevMessage(id, "1-abc", []byte(body), blip.Properties{})
+	e.bt.Send(req)
+	resp := req.Response()
+	rb, _ := resp.Body()
+	if ec := resp.Properties["Error-Code"]; ec != "" {
+		code := 400
+		_, _ = fmt.Sscanf(ec, "%d", &code)
+		return code, string(rb)
+	}
+	return 201, string(rb)
 }
 
 func (e *c19Env) write(path, id, body string) (int, string) {
@@ -175,6 +195,8 @@ func (e *c19Env) write(path, id, body string) (int, string) {
 			code = 400
 		}
 		return code, resp.Body.String()
+	case "BLIP":
+		return e.blipPush(id, body)
 	case "IMPORT":
 		if err := rt.GetSingleDataStore().SetRaw(rt.Context(), id, 0, nil, []byte(body)); err != nil {
 			return 500, err.Error()
@@ -323,8 +345,8 @@ func c19Shape(body string) string {
 func TestVerifC19(t *testing.T) {
 	r := vreport.Begin("C19")
 	defer r.Finish(t)
-	r.Rule("JSON object bodies generated exhaustively from a grammar (23 atoms incl. -0, 1.0, 1e2, integers beyond 2^53 and 2^64, long decimals, empty / non-ASCII / NUL / surrogate-pair / escaped strings, booleans, null, empty containers; 9 keys incl. empty, non-ASCII, underscore-prefixed, dotted; one and two levels of nesting; arrays; pairs; whitespace and key-order variants) x write path {PUT, POST, _bulk_docs, raw bucket write + on-demand import} x read path {GET, GET by rev with history, open_revs, _all_docs include_docs, _changes include_docs, _bulk_get, _raw}; plus client-forbidden reserved properties which must be rejected and not stored; non-trivial = distinct (body, write path)")
-	r.Assume("the replication protocol's push / pull paths and replication to a second peer are not enumerated in this tier (C06 transfers bodies between peers); values are compared as JSON values, numbers by exact mathematical value, after removing the documented properties the gateway adds")
+	r.Rule("JSON object bodies generated exhaustively from a grammar (23 atoms incl. -0, 1.0, 1e2, integers beyond 2^53 and 2^64, long decimals, empty / non-ASCII / NUL / surrogate-pair / escaped strings, booleans, null, empty containers; 9 keys incl. empty, non-ASCII, underscore-prefixed, dotted; one and two levels of nesting; arrays; pairs; whitespace and key-order variants) x write path {PUT, POST, _bulk_docs, raw bucket write + on-demand import, replication push (rev message)} x read path {GET, GET by rev with history, open_revs, _all_docs include_docs, _changes include_docs, _bulk_get, _raw}; plus client-forbidden reserved properties which must be rejected and not stored; non-trivial = distinct (body, write path)")
+	r.Assume("the replication protocol's pull path and replication to a second peer are not enumerated in this tier (C06 transfers bodies between peers); values are compared as JSON values, numbers by exact mathematical value, after removing the documented properties the gateway adds")
 	rt := NewRestTester(t, &RestTesterConfig{})
 	defer rt.Close()
 	e := &c19Env{rt: rt}
@@ -337,7 +359,7 @@ func TestVerifC19(t *testing.T) {
 	r.Note("bodies", len(bodies))
 	idx := 0
 	for _, b := range bodies {
-		for _, wp := range []string{"PUT", "POST", "BULK", "IMPORT"} {
+		for _, wp := range []string{"PUT", "POST", "BULK", "IMPORT", "BLIP"} {
 			idx++
 			if !r.Mine(idx) || r.Expired() {
 				continue
@@ -370,6 +392,34 @@ func TestVerifC19(t *testing.T) {
 			r.Add("evaluations", 1)
 			r.Add("reserved_property_cases", 1)
 		}
+	}
+	// properties a replication push must not carry, with every kind of whitespace between the key and the colon
+	bi := 0
+	for _, prop := range []string{"_id", "_rev", "_revisions", "_sync", "_purged", "_removed"} {
+		for _, sep := range []string{"", " ", "\t", "\n", " \t\n "} {
+			for _, val := range []string{`"x"`, `{}`} {
+				bi++
+				if !r.Mine(bi) {
+					continue
+				}
+				e.n++
+				id := fmt.Sprintf("c19b_%d_%d", r.Shard, e.n)
+				b := `{"v":1,"` + prop + `"` + sep + `:` + val + `}`
+				code, msg := e.write("BLIP", id, b)
+				c := c19Case{Body: b, Write: "BLIP"}
+				get := rt.SendAdminRequest("GET", "/{{.keyspace}}/"+id, "")
+				if code < 400 || code >= 500 {
+					r.Violate("C19/reserved-property-not-rejected/BLIP", fmt.Sprintf("push of %q -> %d %s (expected a rejection); GET -> %d %s", b, code, msg, get.Code, get.Body.String()), c)
+				} else if get.Code == 200 {
+					r.Violate("C19/reserved-property-stored/BLIP", fmt.Sprintf("push of %q was rejected but something is stored: %s", b, get.Body.String()), c)
+				}
+				r.Add("evaluations", 1)
+				r.Add("reserved_property_cases", 1)
+			}
+		}
+	}
+	if e.bt != nil {
+		e.bt.Close()
 	}
 	if r.Expired() {
 		r.Cap("time budget reached")
